@@ -2,7 +2,7 @@
 Require Extraction.
 Require Import ExtrOcamlBasic.
 From Coq Require Import ZArith QArith List.
-From Pandora Require Import Lib.Value Lib.Arr Lib.Blocks Model.Filters Gen.Constants.
+From Pandora Require Import Lib.Value Lib.Arr Lib.Blocks Model.Filters Model.FiltersCheck Gen.Constants.
 Import ListNotations.
 Open Scope Z_scope.
 
@@ -29,11 +29,12 @@ Definition rk_of_table (tbl : list (Q * Q)) (x : Q) : Q :=
 
 Definition blk (b0 dflt : Z) : Z := if b0 =? 0 then dflt else b0.
 
-(* fid 1: median           (B w ny nx disp mask)                        -> () | (disp mask)
+(* fid 1: median           (B w ny nx disp mask)                        -> (disp mask)
    fid 2: bilateral        (B ny nx sigma_space sk rk_table disp mask)  -> (disp mask)
    fid 3: median_for_intervals
                            (B w ny nx reg disp inf sup mask), reg = () | (inf2 sup2 regmask)
-                                                                       -> () | (disp inf sup mask)
+                                                                       -> (disp inf sup mask)
+   fid 5 / 6: spec checkers (Model/FiltersCheck.v), see below
    B = 0 on the wire: the block size found in the source (Gen/Constants.v) *)
 Definition dispatch (fid : Z) (v : value) : value :=
   match fid with
@@ -42,10 +43,8 @@ Definition dispatch (fid : Z) (v : value) : value :=
     let w := as_z (vnth 1 v) in
     let ny := as_z (vnth 2 v) in
     let nx := as_z (vnth 3 v) in
-    match median_filter_disparity msk_pixel_invalid B w ny nx (dec_map (vnth 4 v)) (dec_zmap (vnth 5 v)) with
-    | None => VL []
-    | Some (d, m) => VL [enc_map ny nx d; enc_zmap ny nx m]
-    end
+    let '(d, m) := median_filter_disparity msk_pixel_invalid B w ny nx (dec_map (vnth 4 v)) (dec_zmap (vnth 5 v)) in
+    VL [enc_map ny nx d; enc_zmap ny nx m]
   | 2 =>
     let B := blk (as_z (vnth 0 v)) bilateral_block in
     let ny := as_z (vnth 1 v) in
@@ -68,21 +67,28 @@ Definition dispatch (fid : Z) (v : value) : value :=
         Some (fun (_ _ : map2) => (dec_map i2, dec_map s2, rmf))
       | _ => None
       end in
-    match mfi_filter_disparity msk_pixel_interval_regularized B w ny nx reg
-            (dec_map (vnth 5 v)) (dec_map (vnth 6 v)) (dec_map (vnth 7 v)) (dec_zmap (vnth 8 v)) with
-    | None => VL []
-    | Some o => VL [enc_map ny nx (f_disp o); enc_map ny nx (f_inf o); enc_map ny nx (f_sup o);
-                    enc_zmap ny nx (f_mask o)]
-    end
+    let o := mfi_filter_disparity msk_pixel_interval_regularized B w ny nx reg
+            (dec_map (vnth 5 v)) (dec_map (vnth 6 v)) (dec_map (vnth 7 v)) (dec_zmap (vnth 8 v)) in
+    VL [enc_map ny nx (f_disp o); enc_map ny nx (f_inf o); enc_map ny nx (f_sup o);
+        enc_zmap ny nx (f_mask o)]
   | 4 => (* the bands handed to the regularisation oracle: median_filter of each band *)
     let B := blk (as_z (vnth 0 v)) median_block in
     let w := as_z (vnth 1 v) in
     let ny := as_z (vnth 2 v) in
     let nx := as_z (vnth 3 v) in
-    match median_filter B w ny nx (dec_map (vnth 4 v)) with
-    | None => VL []
-    | Some m => VL [enc_map ny nx m]
-    end
+    VL [enc_map ny nx (median_filter B w ny nx (dec_map (vnth 4 v)))]
+  | 5 => (* the boolean Spec of the median step applied to an (input, output) pair of the REAL code:
+            (rad ny nx disp mask disp' mask') -> 1 | 0 *)
+    let rad := as_z (vnth 0 v) in
+    let ny := as_z (vnth 1 v) in
+    let nx := as_z (vnth 2 v) in
+    of_b (median_step_spec_b msk_pixel_invalid rad ny nx (dec_map (vnth 3 v)) (dec_zmap (vnth 4 v))
+                             (dec_map (vnth 5 v)) (dec_zmap (vnth 6 v)))
+  | 6 => (* the boolean Spec of the array-level median (interval-bound bands): (rad ny nx data out) -> 1 | 0 *)
+    let rad := as_z (vnth 0 v) in
+    let ny := as_z (vnth 1 v) in
+    let nx := as_z (vnth 2 v) in
+    of_b (median_map_spec_b rad ny nx (dec_map (vnth 3 v)) (dec_map (vnth 4 v)))
   | _ => VL [VZ (-1)]
   end.
 
